@@ -817,7 +817,9 @@ func ParseCommands(env *interp.ExecEnv, name string, src interface{}) ([]ast.Com
 	yyParse(l)
 	// wait for the lexer goroutine
 	l.stop()
+	verifHook(l, hkJoinBefore)
 	<-l.done
+	verifHook(l, hkJoinAfter)
 	verifHook(l, hkParseExit)
 	return l.cmds, l.comments, l.result()
 }
